@@ -54,6 +54,9 @@ EXTENDS Naturals, Sequences, FiniteSets, TLC, Json, IOUtils
 CONSTANTS BugNextArgNoSkip,      \* next_arg does not skip the value of a context option
           BugUseFlagAll,         \* use_flag erases every occurrence of the flag
           BugOptionalOrigState,  \* optional continues from its own input state after a missing error
+          BugMissingIsOther,     \* argument reports "nothing to parse" as an other error
+          BugUsage,              \* "none" | "product_drops_right" | "optional_no_brackets" |
+                                 \* "flag_no_short" | "no_default"   (reference usage renderer only)
           BugNames               \* "none", or which contribution to option_names() is dropped:
                                  \* "sum_left_only" | "sum_right_only" | "product_left_only" |
                                  \* "product_right_only" | "optional_none" | "many_none"
@@ -119,13 +122,14 @@ LeafOptionNames(p) ==
   {[name |-> p.long, short |-> FALSE]} \cup {[name |-> s, short |-> TRUE] : s \in ShortSet(p)}
 OptionNames(p) ==
   CASE p.k = "option" -> LeafOptionNames(p)
-    [] p.k \in {"optional", "many"} -> OptionNames(p.sub)
+    [] p.k \in {"optional", "many", "wrap"} -> OptionNames(p.sub)
     [] p.k \in {"product", "sum"} -> OptionNames(p.l) \cup OptionNames(p.r)
     [] OTHER -> {}
 OptionNamesUsed(p) ==
   CASE p.k = "option" -> LeafOptionNames(p)
     [] p.k = "optional" -> IF BugNames = "optional_none" THEN {} ELSE OptionNamesUsed(p.sub)
     [] p.k = "many" -> IF BugNames = "many_none" THEN {} ELSE OptionNamesUsed(p.sub)
+    [] p.k = "wrap" -> OptionNamesUsed(p.sub)
     [] p.k = "product" -> (IF BugNames = "product_right_only" THEN {} ELSE OptionNamesUsed(p.l))
                           \cup (IF BugNames = "product_left_only" THEN {} ELSE OptionNamesUsed(p.r))
     [] p.k = "sum" -> (IF BugNames = "sum_right_only" THEN {} ELSE OptionNamesUsed(p.l))
@@ -136,19 +140,19 @@ Context(p) == [use |-> OptionNamesUsed(p), ref |-> OptionNames(p)]
 (* product_impl.hpp check_disjoint: flag and option names without their dashes *)
 RawNames(p) ==
   CASE p.k \in {"flag", "switch", "unit_switch", "option"} -> {p.long} \cup ShortSet(p)
-    [] p.k \in {"optional", "many"} -> RawNames(p.sub)
+    [] p.k \in {"optional", "many", "wrap"} -> RawNames(p.sub)
     [] p.k \in {"product", "sum"} -> RawNames(p.l) \cup RawNames(p.r)
     [] OTHER -> {}
 
 Labels(p) ==
   CASE p.k \in {"argument", "flag", "switch", "unit_switch", "option", "unit", "sum"} -> {p.label}
-    [] p.k \in {"optional", "many"} -> Labels(p.sub)
+    [] p.k \in {"optional", "many", "wrap"} -> Labels(p.sub)
     [] p.k = "product" -> Labels(p.l) \cup Labels(p.r)
     [] p.k = "commands" -> {"options_label", "sub_command_label"}
 
 Nodes(p) ==
   {p} \cup
-  CASE p.k \in {"optional", "many"} -> Nodes(p.sub)
+  CASE p.k \in {"optional", "many", "wrap"} -> Nodes(p.sub)
     [] p.k \in {"product", "sum"} -> Nodes(p.l) \cup Nodes(p.r)
     [] p.k = "commands" -> Nodes(p.common) \cup UNION {Nodes(q) : q \in SubParsers(p)}
     [] OTHER -> {}
@@ -165,7 +169,7 @@ IllKinds(p) ==
   CASE p.k = "flag" -> (IF NamesClash(p) THEN {"duplicate_names"} ELSE {})
                        \cup (IF p.active = p.inactive THEN {"exception", "duplicate_names"} ELSE {})
     [] p.k \in {"switch", "unit_switch", "option"} -> IF NamesClash(p) THEN {"duplicate_names"} ELSE {}
-    [] p.k \in {"optional", "many"} -> IllKinds(p.sub)
+    [] p.k \in {"optional", "many", "wrap"} -> IllKinds(p.sub)
     [] p.k = "sum" -> IllKinds(p.l) \cup IllKinds(p.r)
     [] p.k = "product" -> IllKinds(p.l) \cup IllKinds(p.r)
                           \cup (IF RawNames(p.l) \cap RawNames(p.r) # {} THEN {"duplicate_names"} ELSE {})
@@ -245,7 +249,7 @@ RunOption(p, st) ==
 (* argument_impl.hpp, detail/pop_arg.cpp *)
 RunArgument(p, st, ctx) ==
   LET k == NextArg(st, ctx) IN
-  IF k = 0 THEN Miss(st, {})
+  IF k = 0 THEN (IF BugMissingIsOther THEN Other ELSE Miss(st, {}))
   ELSE LET e == Extract(p.ty, st[k].tok) IN
        IF e = <<>> THEN Other
        ELSE Ok(RemoveAt(st, k), (p.label :> Leaf(e[1])), {U(p, st[k].idx, "arg", Len(st), ctx.ref)})
@@ -296,6 +300,12 @@ Run(p, st, ctx) ==
                                  [l \in Labels(p.sub) |-> [o |-> <<>>]], MarkDrop(r.used))
            [] OTHER -> r
     [] p.k = "many" -> ManyLoop(p.sub, st, ctx, [l \in Labels(p.sub) |-> <<>>], {})
+    [] p.k = "wrap" ->
+         (* Ways of passing / hiding a parser do not change what it parses: make_base ("Hiding a
+            concrete parser implementation ... hides the concrete (permuted) result type",
+            base_decl.hpp; records are compared as functions from labels, so a permuted result
+            type is the same value), fcppt::make_cref ("By reference", options.doxygen). *)
+         Run(p.sub, st, ctx)
     [] p.k = "product" ->
          (* product_impl.hpp: left, then right on the state left behind by left; the first error wins *)
          LET l == Run(p.l, st, ctx) IN
@@ -327,19 +337,182 @@ Top(r) ==
 
 Parse(p, argv) == Top(Run(p, InitState(argv), Context(p)))
 
-(* parse_help.hpp with default_help_switch(): parse of sum(unit_switch("--help"), p) in the
+(* The parser interface itself (options.doxygen, "Implementation": parse(state, context) returns
+   "either an error or a result together with the remaining state"; parse_error: "either caused
+   by a missing argument or option, or by something else like a failed conversion").  Observable
+   of a direct call: the kind, the remaining arguments (success and missing error), the value. *)
+RunTop(p, argv) == Run(p, InitState(argv), Context(p))
+Remaining(r) == [i \in 1..Len(r.st) |-> r.st[i].tok]
+
+(* parse_help.hpp: parse of sum(unit_switch("--help"), p) in the
    context of that SUM (combined_parser.option_names()); a left result is the usage text (its
    wording is not specified here) *)
 HelpName == <<104, 101, 108, 112>>
-HelpSum(p) == [k |-> "sum", n |-> 0, label |-> "help_sum",
-               l |-> [k |-> "unit_switch", n |-> 0, label |-> "help_label", short |-> <<>>, long |-> HelpName],
-               r |-> p]
-ParseHelp(p, argv) ==
-  LET t == Top(Run(HelpSum(p), InitState(argv), Context(HelpSum(p)))) IN
+DefaultHelp == [short |-> <<>>, long |-> HelpName]       \* default_help_switch()
+HelpSum(p, hs) == [k |-> "sum", n |-> 0, label |-> "help_sum",
+                   l |-> [k |-> "unit_switch", n |-> 0, label |-> "help_label", short |-> hs.short, long |-> hs.long],
+                   r |-> p]
+(* hs = the names of the help switch (help_switch.hpp: a unit_switch; any short / long name) *)
+ParseHelp(p, hs, argv) ==
+  LET t == Top(Run(HelpSum(p, hs), InitState(argv), Context(HelpSum(p, hs)))) IN
   IF ~t.ok THEN t
   ELSE IF "left" \in DOMAIN t.val["help_sum"]
        THEN [ok |-> TRUE, help |-> TRUE, used |-> t.used]
        ELSE [ok |-> TRUE, help |-> FALSE, val |-> t.val["help_sum"].right, used |-> t.used]
+
+-----------------------------------------------------------------------------
+(* Error kinds (missing_error.hpp: "A missing error is an error that occurs if a required
+   argument or option has not been specified.  Such an error makes optional parsers return an
+   empty optional."; other_error_fwd.hpp: "Errors that are not missing_error, for example failed
+   conversion.  Such errors make even optional parsers fail.").  Law over every node q of p, run
+   on the whole argument vector in p's context: an argument is missing exactly when the scope has
+   no positional argument left, an option without default / a unit_switch exactly when none of its
+   names occurs, an option with a default, a flag, optional and many never are; optional fails
+   with an other error exactly when its parser does. *)
+HasTok(argv, t) == \E i \in 1..Len(argv) : Tokens[argv[i]] = t
+NamesAbsent(q, argv) ==
+  /\ ~HasTok(argv, FlagTok(q.long, FALSE))
+  /\ \A sh \in ShortSet(q) : ~HasTok(argv, FlagTok(sh, TRUE))
+ErrorKindLawIn(p, argv) ==
+  LET ctx == Context(p)
+      st0 == InitState(argv)
+  IN \A q \in Nodes(p) :
+       LET r == Run(q, st0, ctx) IN
+       CASE q.k = "argument" -> (r.k = "miss") <=> (NextArg(st0, [use |-> ctx.ref, ref |-> ctx.ref]) = 0)
+         [] q.k = "option" -> (r.k = "miss") <=> (q.default = <<>> /\ NamesAbsent(q, argv))
+         [] q.k = "unit_switch" -> (r.k = "miss") <=> NamesAbsent(q, argv)
+         [] q.k \in {"flag", "switch", "many", "unit"} -> r.k # "miss"
+         [] q.k = "optional" -> r.k # "miss" /\ ((r.k = "other") <=> (Run(q.sub, st0, ctx).k = "other"))
+         [] OTHER -> TRUE
+
+-----------------------------------------------------------------------------
+(* usage() and the help text - STRUCTURE only, as far as options.doxygen shows it:
+     argument                 "age : int - Your age"
+     optional(argument)       "[ Output filename : string - The name of the output file. ... ]"
+     switch / flag            "[ --execute|-e ] - Whether to actually execute the actions",  "[ --trunc ] - ..."
+     option with default      "[ --loglevel|-l : [verbose,debug,...] / warning ] - The log level to use"
+     option in optional       "[ --git-dir : string - The path to the repository ]"
+     product                  one parameter per line
+     commands                 the common parser, then per sub-command an indented "clone:" line
+                              followed by the deeper indented usage of its parser
+   A usage text is a sequence of lines [ind, w] (indentation, words as code point sequences).
+   UsageReq(p) is the sequence of words the documentation fixes, in order: parameter names in the
+   documented form (--long|-short, argument name, "name:" of a sub-command), the ":" before a type,
+   "[" "]" around flags, options with a default and optional parsers, "/" default, "-" help text.
+   Not fixed by the documentation and therefore not required: how a type is spelled, the markers
+   of many ("]*") and sum ("(", "|", ")"), amounts of indentation, a sub-command's help text, and
+   what unit prints.  (unit_switch: the documentation shows no usage line; listing its name is
+   taken as the minimal meaning of "A description on how to use this parser".) *)
+LBr == <<91>>
+RBr == <<93>>
+Colon == <<58>>
+Slash == <<47>>
+DashW == <<45>>
+NamesWord(p) == FlagTok(p.long, FALSE) \o (IF p.short = <<>> THEN <<>> ELSE <<124>> \o FlagTok(p.short[1], TRUE))
+HelpWords(p) == IF p.help = <<>> THEN <<>> ELSE <<DashW>> \o p.help
+SubHeader(sub) == sub.name \o Colon
+
+RECURSIVE UsageReq(_), SubsReq(_, _)
+SubsReq(subs, i) == IF i > Len(subs) THEN <<>> ELSE <<SubHeader(subs[i])>> \o UsageReq(subs[i].p) \o SubsReq(subs, i + 1)
+UsageReq(p) ==
+  CASE p.k = "argument" -> <<p.name, Colon>> \o HelpWords(p)
+    [] p.k \in {"flag", "switch"} -> <<LBr, NamesWord(p), RBr>> \o HelpWords(p)
+    [] p.k = "option" -> (IF p.default = <<>> THEN <<NamesWord(p), Colon>>
+                          ELSE <<LBr, NamesWord(p), Colon, Slash, p.default_text[1], RBr>>) \o HelpWords(p)
+    [] p.k = "unit_switch" -> <<NamesWord(p)>>
+    [] p.k = "unit" -> <<>>
+    [] p.k = "optional" -> <<LBr>> \o UsageReq(p.sub) \o <<RBr>>
+    [] p.k \in {"many", "wrap"} -> UsageReq(p.sub)
+    [] p.k \in {"product", "sum"} -> UsageReq(p.l) \o UsageReq(p.r)
+    [] p.k = "commands" -> UsageReq(p.common) \o SubsReq(p.subs, 1)
+
+(* words that name a parameter: anything starting with '-' (and longer than the "-" that
+   introduces a help text), argument names and sub-command headers of the parser *)
+NameSet(p) ==
+  {q.name : q \in {x \in Nodes(p) : x.k = "argument"}}
+  \cup UNION {{SubHeader(q.subs[i]) : i \in 1..Len(q.subs)} : q \in {x \in Nodes(p) : x.k = "commands"}}
+NameLike(w, NS) == (Len(w) >= 2 /\ w[1] = Dash) \/ w \in NS
+NamesOf(ws, NS) == SelectSeq(ws, LAMBDA w : NameLike(w, NS))
+
+RECURSIVE IsSubseqFrom(_, _, _, _)
+IsSubseqFrom(a, i, b, j) ==
+  IF i > Len(a) THEN TRUE
+  ELSE IF j > Len(b) THEN FALSE
+  ELSE IF a[i] = b[j] THEN IsSubseqFrom(a, i + 1, b, j + 1) ELSE IsSubseqFrom(a, i, b, j + 1)
+IsSubseq(a, b) == IsSubseqFrom(a, 1, b, 1)
+
+(* commands: pairs <<i, j>> of positions in the sequence of parameter names whose lines must be
+   indented i less than j: common parser < sub-command header < the sub-command's parser *)
+NLCount(p, NS) == Len(NamesOf(UsageReq(p), NS))
+RECURSIVE IndentPairs(_, _, _), SubsPairs(_, _, _, _, _)
+SubsPairs(c, i, off, commonIdx, NS) ==
+  IF i > Len(c.subs) THEN {}
+  ELSE LET n == NLCount(c.subs[i].p, NS) IN
+       {<<x, off>> : x \in commonIdx} \cup {<<off, y>> : y \in (off + 1)..(off + n)}
+       \cup IndentPairs(c.subs[i].p, off + 1, NS)
+       \cup SubsPairs(c, i + 1, off + 1 + n, commonIdx, NS)
+IndentPairs(p, off, NS) ==
+  CASE p.k \in {"optional", "many", "wrap"} -> IndentPairs(p.sub, off, NS)
+    [] p.k \in {"product", "sum"} -> IndentPairs(p.l, off, NS) \cup IndentPairs(p.r, off + NLCount(p.l, NS), NS)
+    [] p.k = "commands" ->
+         LET nc == NLCount(p.common, NS) IN
+         IndentPairs(p.common, off, NS) \cup SubsPairs(p, 1, off + nc, off..(off + nc - 1), NS)
+    [] OTHER -> {}
+
+RECURSIVE FlatWords(_, _), FlatLines(_, _)
+FlatWords(lines, i) == IF i > Len(lines) THEN <<>> ELSE lines[i].w \o FlatWords(lines, i + 1)
+FlatLines(lines, i) == IF i > Len(lines) THEN <<>> ELSE [k \in 1..Len(lines[i].w) |-> i] \o FlatLines(lines, i + 1)
+
+UsageReasons(lines, p) ==
+  LET NS == NameSet(p)
+      W == FlatWords(lines, 1)
+      L == FlatLines(lines, 1)
+      req == UsageReq(p)
+      nlPos == SelectSeq([i \in 1..Len(W) |-> i], LAMBDA i : NameLike(W[i], NS))   \* positions of names in W
+      sameNames == [k \in 1..Len(nlPos) |-> W[nlPos[k]]] = NamesOf(req, NS)
+  IN  (IF IsSubseq(req, W) THEN {} ELSE {"usage-misses-a-documented-element"})
+      \cup (IF sameNames THEN {} ELSE {"usage-lists-wrong-parameters"})
+      \cup (IF Len(SelectSeq(W, LAMBDA w : w = LBr)) = Len(SelectSeq(W, LAMBDA w : Len(w) >= 1 /\ w[1] = 93))
+            THEN {} ELSE {"usage-brackets-unbalanced"})
+      \cup (IF \A a, b \in 1..Len(nlPos) : a # b => L[nlPos[a]] # L[nlPos[b]]
+            THEN {} ELSE {"usage-two-parameters-on-one-line"})
+      \cup (IF sameNames => \A pr \in IndentPairs(p, 1, NS) :
+                               lines[L[nlPos[pr[1]]]].ind < lines[L[nlPos[pr[2]]]].ind
+            THEN {} ELSE {"usage-commands-indentation"})
+
+(* Reference renderer: a transcription of the usage() functions (undocumented markers included),
+   used only to model-check that the structural requirements above are satisfiable by the design
+   and can fail (BugUsage); verdicts about the code are taken from recorded texts only. *)
+TypeWord == <<84>>
+Line(ind, w) == [ind |-> ind, w |-> w]
+Indent(ls) == [i \in 1..Len(ls) |-> Line(ls[i].ind + 2, ls[i].w)]
+Around(open, ls, close) ==
+  IF Len(ls) = 1 THEN <<Line(ls[1].ind, open \o ls[1].w \o close)>>
+  ELSE <<Line(ls[1].ind, open \o ls[1].w)>> \o SubSeq(ls, 2, Len(ls) - 1)
+       \o <<Line(ls[Len(ls)].ind, ls[Len(ls)].w \o close)>>
+RNames(p) == IF BugUsage = "flag_no_short" THEN FlagTok(p.long, FALSE) ELSE NamesWord(p)
+RECURSIVE UsageLines(_), SubsLines(_, _)
+SubsLines(subs, i) ==
+  IF i > Len(subs) THEN <<>>
+  ELSE <<Line(2, <<SubHeader(subs[i])>>)>> \o Indent(Indent(UsageLines(subs[i].p))) \o SubsLines(subs, i + 1)
+UsageLines(p) ==
+  CASE p.k = "argument" -> <<Line(0, <<p.name, Colon, TypeWord>> \o HelpWords(p))>>
+    [] p.k \in {"flag", "switch"} -> <<Line(0, <<LBr, RNames(p), RBr>> \o HelpWords(p))>>
+    [] p.k = "option" ->
+         <<Line(0, (IF p.default = <<>> THEN <<RNames(p), Colon, TypeWord>>
+                    ELSE IF BugUsage = "no_default" THEN <<LBr, RNames(p), Colon, TypeWord, RBr>>
+                    ELSE <<LBr, RNames(p), Colon, TypeWord, Slash, p.default_text[1], RBr>>) \o HelpWords(p))>>
+    [] p.k = "unit_switch" -> <<Line(0, <<RNames(p)>>)>>
+    [] p.k = "unit" -> <<Line(0, <<>>)>>
+    [] p.k = "optional" -> IF BugUsage = "optional_no_brackets" THEN UsageLines(p.sub)
+                           ELSE Around(<<LBr>>, UsageLines(p.sub), <<RBr>>)
+    [] p.k = "many" -> Around(<<LBr>>, UsageLines(p.sub), <<<<93, 42>>>>)
+    [] p.k = "wrap" -> UsageLines(p.sub)
+    [] p.k = "product" -> IF BugUsage = "product_drops_right" THEN UsageLines(p.l)
+                          ELSE UsageLines(p.l) \o UsageLines(p.r)
+    [] p.k = "sum" -> <<Line(0, <<<<40>>>>)>> \o Indent(UsageLines(p.l)) \o <<Line(0, <<<<124>>>>)>>
+                      \o Indent(UsageLines(p.r)) \o <<Line(0, <<<<41>>>>)>>
+    [] p.k = "commands" -> UsageLines(p.common) \o SubsLines(p.subs, 1)
 
 -----------------------------------------------------------------------------
 (* Design-level properties of a successful top-level result t for argument vector argv. *)
